@@ -25,14 +25,14 @@ LEVEL_NOTE = ("Theorems are about two Gallina models: Exec/RuntimeFutures.v (cal
               "proved); asyncio.gather / await and concurrent.futures.Future are modelled by their documented "
               "contract; cancellation is outside the quantifier.")
 RULE = ("behaviour-tree programs with 1-6 deferred resolver calls (modes S/P/C, nested deferred values, objects, "
-        "lists, non-null, custom-scalar leaves that serialise to null or whose serialisation raises, ResolverError / RuntimeError at any field) x 5 configurations (BlockingExecutor; Executor on BlockingRuntime, AsyncIORuntime without and with thread offload, ThreadPoolRuntime); asyncio and thread pool "
+        "lists, non-null, custom-scalar leaves that serialise to null or whose serialisation raises, ResolverError / RuntimeError at any field) x 5 configurations (BlockingExecutor; Executor on BlockingRuntime, AsyncIORuntime without and with thread offload, ThreadPoolRuntime; plus a third-party promise-style Runtime written against the public Runtime ABC); asyncio and thread pool "
         "under every admissible completion order (depth-first replay, exhaustive up to the tier's bound, sampled "
         "beyond); thread pool also with every subset of the submitted calls completing before submit returns "
         "(configuration poole: small operations, failures at every position, exhaustive); non-trivial = a deferred configuration with at least two completion orders or a failure; "
         "distinct = distinct (program, configuration)")
 
 CFG = {"bexec": "CBlockingExec", "brt": "CBlockingRt", "aio": "CAsyncio", "aiot": "CAsyncio", "pool": "CPool",
-       "poole": "CPool", "threads": "CThreads"}
+       "poole": "CPool", "prom": "CPool", "threads": "CThreads"}
 
 
 def F(k, m, b, nn=False, lv=0, **kw):
@@ -85,6 +85,20 @@ def _corpus_programs():
                                                                             ["obj", [F(1, "C", I(5)), F(2, "C", I(6))]]]]),
                                          F(3, "C", I(3)),
                                          F(4, "P", ["list", True, "abs", [["obj", [F(1, "S", I(1)), F(2, "C", I(2))]], ["null"], ["bad"]]], nn=True)]})
+    # a list that cannot be completed inside an item of another one: the inner field's own error stays
+    ps.append({"op": "mutation", "fields": [F(0, "P", ["list", False, "abs", [
+        ["obj", [F(1, "S", ["list", True, "abs", [["bad"], ["obj", [F(2, "D", ["null"], sh="lI")]]]], nn=True),
+                 F(3, "P", ["list", False, "obj", [["null"], ["obj", [F(4, "C", ["err", 3], sh="i")]]]])]],
+        ["bad"]]], nn=True)]})
+    # one AST field node (selected on the interface IF) executed against two concrete types whose
+    # declarations of that field differ in an argument default; resolvers echo the coerced argument:
+    # a mixed list, and two sibling root fields completing in any order
+    ps.append({"op": "query", "fields": [F(0, "C", ["list", False, "abs", [["obj", [F(1, "C", ["echo"])]], ["obj", [F(1, "C", ["echo"])], "T2"],
+                                                                            ["obj", [F(1, "C", ["echo"])], "T2"], ["obj", [F(1, "C", ["echo"])]]]])]})
+    ps.append({"op": "query", "fields": [F(0, "C", ["list", False, "abs", [["obj", [F(2, "P", ["echo"]), F(3, "S", ["echo"], nn=True)], "T2"]]]),
+                                         F(1, "C", ["list", False, "abs", [["obj", [F(2, "P", ["echo"]), F(3, "S", ["echo"], nn=True)]]]]),
+                                         dict(F(4, "D", ["echo"]), args={"dflt": 7}), F(5, "C", ["echo"])], "render":
+               [["f", 0], ["f", 1], ["f", 4], ["f", 5]]})
     # the family of resolver-error classes (domain constructors, keyword-only, shared instance)
     ps.append({"op": "query", "fields": [F(k, m, ["err", k], sh="i") for k, m in enumerate(["S", "P", "C", "D", "A", "C"])]
                                         + [F(6, "C", ["err", 5], sh="i"), F(7, "C", I(7))]})
@@ -136,11 +150,11 @@ def _explore_once(case):
         return res
 
 
-def _cases_for(prog, limit, samples, seed, configs=("bexec", "brt", "aio", "aiot", "pool")):
+def _cases_for(prog, limit, samples, seed, configs=("bexec", "brt", "aio", "aiot", "pool", "prom")):
     out = []
     for c in configs:
         case = {"prog": prog, "config": c, "limit": limit, "samples": samples, "seed": seed}
-        if c in ("aio", "aiot", "pool", "poole"):
+        if c in ("aio", "aiot", "pool", "poole", "prom"):
             try:
                 n = len(_explore(case)["runs"])
             except Exception:  # noqa: reported per case by the runner (run_impl raises again)
@@ -247,7 +261,7 @@ def to_coq(case, obs):
     if "comb" in case:
         return sched_comb.c_case(case["comb"], obs)
     cfg = case["config"]
-    acfg = "pool" if cfg in ("threads", "poole") else cfg
+    acfg = "pool" if cfg in ("threads", "poole", "prom") else cfg
     bad = sp.bad_paths(case["prog"])
     return "(CaseProg %s %s [%s])" % (CFG[cfg], sp.c_prog(case["prog"], acfg),
                                ";\n ".join(sp.c_obs(o, bad) for o in obs["runs"]))
@@ -262,7 +276,7 @@ def show_expr(case, obs):
 def nontrivial(case, obs):
     if "comb" in case:
         return len(case["comb"]["sigma"]) >= 2
-    return case["config"] in ("aio", "aiot", "pool", "poole", "threads") and (
+    return case["config"] in ("aio", "aiot", "pool", "poole", "prom", "threads") and (
         len(obs["runs"]) > 1 or any("fail" in r for r in obs["runs"]))
 
 
@@ -317,7 +331,7 @@ def shrink(case, is_bad):
     while changed:
         changed = False
         for p in gen_sched.sub_programs(cur["prog"]):
-            if gen_sched.n_tasks(p, "pool") < 1 and cur["config"] in ("aio", "aiot", "pool", "poole", "threads"):
+            if gen_sched.n_tasks(p, "pool") < 1 and cur["config"] in ("aio", "aiot", "pool", "poole", "prom", "threads"):
                 continue
             cand = dict(cur, prog=p)
             cand.pop("chunk", None)
@@ -341,7 +355,7 @@ def _extra_evidence(cases, obss):
     fails = errs = 0
     for c, o in zip(cases, obss):
         per_cfg[c["config"]] = per_cfg.get(c["config"], 0) + 1
-        if c["config"] in ("aio", "aiot", "pool", "poole"):
+        if c["config"] in ("aio", "aiot", "pool", "poole", "prom"):
             if c.get("chunk", [0])[0] != 0:
                 continue
             orders += o.get("orders_total", len(o["runs"]))
@@ -350,7 +364,7 @@ def _extra_evidence(cases, obss):
             tasks[n] = tasks.get(n, 0) + 1
         fails += 1 if any("fail" in r for r in o["runs"]) else 0
         errs += 1 if any(r.get("errors") for r in o["runs"]) else 0
-    sched_cases = sum(1 for c in cases if c["config"] in ("aio", "aiot", "pool", "poole") and c.get("chunk", [0])[0] == 0)
+    sched_cases = sum(1 for c in cases if c["config"] in ("aio", "aiot", "pool", "poole", "prom") and c.get("chunk", [0])[0] == 0)
     return {"exhaustive": bool(sched_cases) and exhaustive == sched_cases,
             "distribution": {
                 "cases_per_configuration": per_cfg,
